@@ -1146,8 +1146,8 @@ impl std::fmt::Debug for ConstructiblesInScope {
 }
 
 /// Generic constructors are not specialised for types nested deeper than this
-/// (it mirrors `rustc`'s default recursion limit).
-const MAX_TYPE_NESTING_FOR_BINDING: usize = 128;
+/// (far beyond anything a real application nests, and cheap to reach: the work grows with the cube of the depth).
+const MAX_TYPE_NESTING_FOR_BINDING: usize = 32;
 
 /// How deeply are types nested inside `t`? E.g. 1 for `u8`, 3 for `Option<Vec<u8>>`.
 fn nesting_depth(t: &Type) -> usize {
